@@ -2401,7 +2401,11 @@ def catalogue(t):
     F('m4ri/mzd.c', 'mzd_col_swap', 'mzdColSwap', doc='mzd_col_swap_in_rows on all rows')
     F('m4ri/mzp.c', 'mzd_apply_p_right_trans_tri', 'mzdApplyPRightTransTri', fuels=['(v_A_nrows).toNat', '(v_A_ncols).toNat'],
       doc='column permutation above the diagonal, in row blocks of L1-cache size')
+    F('m4ri/mzd.c', 'mzd_combine', 'mzdCombine', nosse=True, alias={'A': 'C'},
+      doc='dispatch: in-place variant when C == A on the same row and block')
     F('m4ri/mzd.c', 'mzd_set_ui', 'mzdSetUi', fuels=['(v_A_nrows).toNat', '(v_A_width).toNat', '(v_A_nrows).toNat'])
+    F('m4ri/mzd.c', '_mzd_mul_va', 'mzdMulVa', retparam='C', nosse=True, fuels=['(v_v_nrows).toNat', '(v_v_ncols).toNat'],
+      doc='vector-matrix style product C (+)= v * A: one mzd_combine per set bit of v')
     TRSM = dict(mats=(0, 1), writes=(1,))
     PLUQ = dict(mats=(0,), perms=(1, 2), ret='i', writes=(0,), pwrites=(1, 2))
     F('m4ri/ple.c', '_mzd_pluq', 'pluqFromPle', externs={'_mzd_ple': PLUQ, 'mzd_apply_p_right_trans_tri': dict(mats=(0,), perms=(1,), writes=(0,))},
